@@ -8,4 +8,4 @@ NOT_CLAIMED = {}
 CLAIMED = {}
 
 # properties whose check is integrated and green on /repo (others stay under not_applicable until they are)
-READY = ["C19", "C08", "C01", "C02", "C12", "C18", "C16", "C10", "C14", "C15", "C04", "C05", "C07", "C06", "C09", "C17", "C20", "C11"]
+READY = ["C19", "C08", "C01", "C02", "C12", "C18", "C16", "C10", "C14", "C15", "C04", "C05", "C07", "C06", "C09", "C17", "C20", "C11", "C13", "C03"]
